@@ -692,8 +692,8 @@ def _listing(root: str):
 class _StoreUnderTest:
     """a disk or memory object store pre-populated with loose `pre` objects, re-created when it changed"""
 
-    def __init__(self, kind: str, pre, scratch: str):
-        self.kind, self.pre, self.scratch = kind, pre, scratch
+    def __init__(self, kind: str, pre, scratch: str, pre_mode: str = "loose"):
+        self.kind, self.pre, self.scratch, self.pre_mode = kind, pre, scratch, pre_mode
         self.store = None
         self.root = None
         self.n = 0
@@ -711,8 +711,12 @@ class _StoreUnderTest:
             self.store = DiskObjectStore.init(os.path.join(self.root, "objects"))
         else:
             self.store = MemoryObjectStore()
-        for ty, data in self.pre:
-            self.store.add_object(ShaFile.from_raw_string(ty, data))
+        if self.pre_mode == "packed" and self.kind == "disk" and self.pre:
+            # the pre-existing objects live in an older pack
+            self.store.add_objects([(ShaFile.from_raw_string(ty, data), None) for ty, data in self.pre])
+        else:
+            for ty, data in self.pre:
+                self.store.add_object(ShaFile.from_raw_string(ty, data))
         self.before_ids = sorted(set(self.store))
         self.before_listing = _listing(self.root) if self.root else None
 
@@ -786,6 +790,52 @@ def _check_objects(store, ids, bad, limit=200):
             bad.append(f"misnamed {i.decode()} content hashes to {_independent_id(o)}")
 
 
+def _check_new_pack(base: str, bad: list, limit: int = 600):
+    """an ACCEPTED pack is read back through that pack ALONE (no other pack, no loose object, no external resolver):
+    every index entry by get_raw, iterobjects(), check()"""
+    from dulwich.object_format import SHA1
+    from dulwich.pack import Pack
+    name = os.path.basename(base)[:17]
+    p = Pack(base, object_format=SHA1)
+    selfnamed = False
+    try:
+        n = 0
+        for sha, _off, _crc in p.index.iterentries():
+            n += 1
+            if n > limit:
+                break
+            try:
+                u = p.data.get_unpacked_object_at(_off)
+                if u.pack_type_num == 7 and bytes(u.delta_base) == bytes(sha):
+                    selfnamed = True        # a REF_DELTA stored under the very name it gives as its base
+            except Exception:
+                pass
+            try:
+                ty, raw = p.get_raw(sha)
+                got = hashlib.sha1(TYPE_NAMES.get(ty, b"?") + b" " + str(len(raw)).encode() + b"\0" + raw).digest()
+                if got != bytes(sha):
+                    bad.append(f"not-self-contained: {name}.get_raw({bytes(sha).hex()[:12]}) hashes to {got.hex()[:12]}")
+            except Exception as e:
+                bad.append(f"not-self-contained: {name}.get_raw({bytes(sha).hex()[:12]}) raises {type(e).__name__}")
+        try:
+            m = sum(1 for _ in p.iterobjects())
+            if m != len(p.index):
+                bad.append(f"not-self-contained: {name}.iterobjects() yields {m} objects for {len(p.index)} index entries")
+        except Exception as e:
+            bad.append(f"not-self-contained: {name}.iterobjects() raises {type(e).__name__}")
+        try:
+            p.check()
+        except Exception as e:
+            # ObjectFormatException = ShaFile.check() finds the CONTENTS of an object malformed (e.g. a commit without a tree
+            # that the lenient parser let in): the object still hashes to its name — well-formedness is property C01's, not
+            # a question of whether the pack can be read on its own
+            if type(e).__name__ != "ObjectFormatException":
+                bad.append(f"not-self-contained: {name}.check() raises {type(e).__name__}: {str(e)[:80]}")
+    finally:
+        p.close()
+    return selfnamed
+
+
 def _ingest_one(sut: _StoreUnderTest, path: str, data: bytes, expect_ids) -> dict:
     import time
     import warnings
@@ -807,6 +857,33 @@ def _ingest_one(sut: _StoreUnderTest, path: str, data: bytes, expect_ids) -> dic
         rep["res"] = "base " + type(e).__name__
     rep["t"] = round(time.time() - t0, 3)
     bad: list[str] = []
+    if rep["res"] != "ok":
+        # the SAME store object, right after the failed call and before anything rescans the pack directory:
+        # every id involved answers `in` and `[]` exactly as before the call
+        stale = []
+        for i in sorted(set(expect_ids) | {b.decode() for b in sut.before_ids}):
+            ib = i.encode()
+            was = ib in sut.before_ids
+            try:
+                now_in = ib in sut.store
+            except Exception as e:
+                stale.append(f"`{i[:12]} in store` raises {type(e).__name__}")
+                continue
+            try:
+                o = sut.store[ib]
+                readable = _independent_id(o) == i
+            except KeyError:
+                readable = False
+            except Exception as e:
+                readable = None
+                if was:
+                    stale.append(f"pre-existing {i[:12]} is no longer readable through the store that failed: {type(e).__name__}")
+            if was and (not now_in or readable is False):
+                stale.append(f"pre-existing {i[:12]}: in={now_in} readable={readable} after the failed call")
+            if not was and (now_in or readable):
+                stale.append(f"{i[:12]} of the REJECTED pack: in={now_in} readable={readable} through the store that failed")
+        if stale:
+            rep["stale"] = stale[:6]
     try:
         after = sorted(set(sut.store))
     except Exception as e:
@@ -825,6 +902,11 @@ def _ingest_one(sut: _StoreUnderTest, path: str, data: bytes, expect_ids) -> dic
         except Exception as e:
             bad.append(f"fresh DiskObjectStore over the directory raises {type(e).__name__}: {e}")
     rep["ids"] = [i.decode() for i in fresh_after]
+    if rep["res"] == "ok" and listing is not None:
+        for f, _sz in listing:
+            if f.endswith(".pack") and (f, _sz) not in sut.before_listing and os.path.exists(os.path.join(sut.root, f[:-5] + ".idx")):
+                if _check_new_pack(os.path.join(sut.root, f[:-5]), bad):
+                    rep["selfnamed_ref_delta"] = True
     if rep["res"] == "ok":
         _check_objects(sut.store, after, bad)
         if after != fresh_after:
@@ -855,7 +937,7 @@ def _ingest_one(sut: _StoreUnderTest, path: str, data: bytes, expect_ids) -> dic
     if bad:
         rep["bad"] = bad[:5]
     # the next case needs a pristine store unless this one provably left it untouched
-    if rep["res"] == "ok" or rep.get("changed") or rep.get("gonefiles") or bad:
+    if rep["res"] == "ok" or rep.get("changed") or rep.get("gonefiles") or rep.get("stale") or bad:
         sut.close()
     elif rep.get("newfiles"):
         # only stray files were left behind (reported by the caller): remove them and keep the store
@@ -876,17 +958,145 @@ def impl_ingest_batch(a):
     """a = {kind, path, pre: [[ty, hex]], mutants: [hex], expect: [hexid], scratch, family}"""
     global _FAMILY
     _FAMILY = a.get("family") or []
-    key = (a["kind"], tuple(map(tuple, a["pre"])))
+    key = (a["kind"], tuple(map(tuple, a["pre"])), a.get("pre_mode", "loose"))
     sut = _SUT.get(key)
     if sut is None:
         for s in _SUT.values():
             s.destroy()
         _SUT.clear()
-        sut = _SUT[key] = _StoreUnderTest(a["kind"], [(ty, unhx(d)) for ty, d in a["pre"]], a["scratch"])
+        sut = _SUT[key] = _StoreUnderTest(a["kind"], [(ty, unhx(d)) for ty, d in a["pre"]], a["scratch"], a.get("pre_mode", "loose"))
     out = []
     for m in a["mutants"]:
         out.append(_ingest_one(sut, a["path"], unhx(m), a.get("expect", [])))
     return out
+
+
+class _Wire:
+    """a peer: `prefix`, then `unit` repeated for ever (EOF only after `hard` bytes); counts the bytes it hands out"""
+
+    def __init__(self, prefix: bytes, unit: bytes, hard: int):
+        self.prefix, self.unit, self.hard = prefix, unit, hard
+        self.handed = 0
+        self.calls = 0
+
+    def _take(self, n: int) -> bytes:
+        n = max(0, min(n, self.hard - self.handed))
+        if n == 0:
+            return b""
+        start = self.handed
+        out = bytearray()
+        if start < len(self.prefix):
+            out += self.prefix[start:start + n]
+        if len(out) < n and self.unit:
+            pos = start + len(out) - len(self.prefix)
+            need = n - len(out)
+            u = self.unit
+            rep = u * (need // len(u) + 2)
+            k = pos % len(u)
+            out += rep[k:k + need]
+        self.handed += len(out)
+        self.calls += 1
+        return bytes(out)
+
+    def read(self, n: int) -> bytes:      # read_all
+        return self._take(n)
+
+    def recv(self, n: int) -> bytes:      # read_some
+        return self._take(n)
+
+
+def _capped_wire(attack: str, cap: int):
+    """(prefix, unit): packs that only an INPUT cap can stop"""
+    hdr1 = b"PACK" + struct.pack(">LL", 2, 1)
+    empty_stored = b"\x00\x00\x00\xff\xff"            # non-final stored deflate block of length 0: input, no output
+    if attack == "endless-empty-stored-blocks":
+        return hdr1 + enc_objhdr(3, 10) + b"\x78\x01", empty_stored
+    if attack == "endless-stream-in-ref-delta":
+        return hdr1 + enc_objhdr(7, 10) + b"\x11" * 20 + b"\x78\x01", empty_stored
+    if attack == "endless-stream-after-valid-entry":
+        return b"PACK" + struct.pack(">LL", 2, 2) + raw_entry(3, b"hello world\n") + enc_objhdr(3, 10) + b"\x78\x01", empty_stored
+    if attack == "endless-tiny-entries":
+        return b"PACK" + struct.pack(">LL", 2, 2 ** 32 - 1), b"\x30" + zlib.compress(b"")
+    if attack == "valid-pack-larger-than-cap":
+        import random
+        body = hdr1 + raw_entry(3, random.Random(1).randbytes(3 * cap), level=0)
+        return body + sha1(body), b""
+    if attack == "valid-pack-below-cap":
+        body = hdr1 + raw_entry(3, b"hello world\n")
+        return body + sha1(body), b""
+    raise RuntimeError(attack)
+
+
+def impl_capped(a):
+    """a pack that never ends against `max_input_size` / receive.maxInputSize, with SEPARATE read_all and read_some"""
+    import shutil
+    import tempfile
+    import time
+    import warnings
+    warnings.simplefilter("ignore")
+    from dulwich.object_store import DiskObjectStore, MemoryObjectStore
+    cap, hard = a["cap"], a["hard"]
+    prefix, unit = _capped_wire(a["attack"], cap)
+    root = tempfile.mkdtemp(prefix="cap", dir=a["scratch"])
+    rep: dict = {}
+    try:
+        if a["mode"] == "direct":
+            store = DiskObjectStore.init(os.path.join(root, "objects")) if a["kind"] == "disk" else MemoryObjectStore()
+            before = _listing(root)
+            wire = _Wire(prefix, unit, hard)
+            t0 = time.time()
+            try:
+                if a["kind"] == "disk":
+                    store.add_thin_pack(wire.read, wire.recv, max_input_size=cap)
+                else:
+                    store.add_thin_pack(wire.read, wire.recv)     # the memory store has no cap: bounded by the wire only
+                rep["res"] = "ok"
+            except Exception as e:
+                rep["res"] = "err " + exc_class(e)
+                rep["exc"] = type(e).__name__
+            except BaseException as e:
+                rep["res"] = "base " + type(e).__name__
+            rep["t"] = round(time.time() - t0, 3)
+            rep["ids"] = len(set(store))
+            rep["newfiles"] = [p for p, _ in _listing(root) if (p, _) not in before]
+            store.close()
+        else:
+            from dulwich.protocol import ReceivableProtocol, pkt_line
+            from dulwich.repo import Repo
+            from dulwich.server import DictBackend, ReceivePackHandler
+            repo = Repo.init_bare(os.path.join(root, "repo.git"), mkdir=True)
+            cfg = repo.get_config()
+            cfg.set((b"receive",), b"maxInputSize", str(cap).encode())
+            cfg.write_to_path()
+            repo.close()
+            repo = Repo(os.path.join(root, "repo.git"))
+            before = _listing(os.path.join(root, "repo.git", "objects"))
+            cmds = pkt_line(b"0" * 40 + b" " + b"1" * 40 + b" refs/heads/x\x00report-status\n") + b"0000"
+            wire = _Wire(cmds + prefix, unit, hard + len(cmds))
+            outbuf = bytearray()
+            proto = ReceivableProtocol(wire.recv, lambda d: outbuf.extend(d) or len(d))
+            handler = ReceivePackHandler(DictBackend({b"/": repo}), [b"/"], proto, stateless_rpc=True)
+            t0 = time.time()
+            try:
+                handler.handle()
+                rep["res"] = "ok"
+            except Exception as e:
+                rep["res"] = "err " + exc_class(e)
+                rep["exc"] = type(e).__name__
+            except BaseException as e:
+                rep["res"] = "base " + type(e).__name__
+            rep["t"] = round(time.time() - t0, 3)
+            rep["reply"] = bytes(outbuf)[:300].decode("latin1")
+            rep["ids"] = len(set(repo.object_store))
+            rep["refs"] = sorted(k.decode("latin1") for k in repo.get_refs())
+            rep["newfiles"] = [p for p, _ in _listing(os.path.join(root, "repo.git", "objects")) if (p, _) not in before]
+            rep["cmd_bytes"] = len(cmds)
+            repo.close()
+        rep["handed"] = wire.handed
+        rep["calls"] = wire.calls
+    finally:
+        shutil.rmtree(root, ignore_errors=True)
+    return rep
 
 
 def impl_rss(a):
@@ -1112,8 +1322,18 @@ def _classify_ingest(ctx, stream, case, kind, path, rep, m, pack_ids):
     if rep.get("t", 0) > 5.0:
         ctx.oracle_fail(stream, case, f"ingest of a {len(m)}-byte input took {rep['t']} s", "ingest-slow")
     for b in rep.get("bad", []):
+        if rep.get("selfnamed_ref_delta") and "UnresolvedDeltas" in b and (b.startswith("unreadable ") or ".get_raw(" in b):
+            cls = "accepted-pack-ref-delta-named-like-its-base"
+        elif b.startswith("not-self-contained"):
+            cls = "accepted-pack-not-self-contained:" + ("get_raw" if ".get_raw(" in b else "iterobjects" if ".iterobjects(" in b else "check")
+        else:
+            cls = f"store-inconsistent:{b.split(' ')[0]}"
         ctx.oracle_fail(stream, dict(case, detail=b), "after the ingest the store holds an object that does not hash to its name / "
-                        "cannot be read: " + b, f"store-inconsistent:{b.split(' ')[0]}")
+                        "cannot be read / the accepted pack cannot be read on its own: " + b, cls)
+    if res != "ok" and rep.get("stale"):
+        ctx.oracle_fail(stream, dict(case, stale=rep["stale"], exc=rep.get("exc")),
+                        f"after the FAILED ingest ({rep.get('exc')}) the SAME store object answers differently than before the call "
+                        f"(before any rescan of the pack directory): {rep['stale']}", f"failed-ingest-stale-store-object:{kind}")
     if res != "ok":
         new = rep.get("newfiles", [])
         installed = sorted(f.rsplit(".", 1)[-1] for f in new) == ["idx", "pack"] and all(f.startswith("objects/pack/pack-") for f in new)
@@ -1148,12 +1368,12 @@ def _classify_ingest(ctx, stream, case, kind, path, rep, m, pack_ids):
     return f"{res} names={names}"
 
 
-def _stream_ingest(ctx, w, label, pre, cases, pack_ids, combos=COMBOS, stream="ingest"):
+def _stream_ingest(ctx, w, label, pre, cases, pack_ids, combos=COMBOS, stream="ingest", pre_mode="loose"):
     """cases: (tag, bytes).  Every combo: real ingest in the child (oracle), and for the modelled combos the logical model."""
     muts = [m for _, m in cases]
     tbls = None
     for kind, path in combos:
-        args = {"kind": kind, "path": path, "pre": [[ty, hx(d)] for ty, d in pre], "expect": pack_ids,
+        args = {"kind": kind, "path": path, "pre": [[ty, hx(d)] for ty, d in pre], "expect": pack_ids, "pre_mode": pre_mode,
                 "scratch": str(ctx.scratch), "family": ctx.extra_cov.get("apply_pack_family", [])}
         reps = _ask_batched(w, "ingest_batch", args, muts, chunk=100)
         model = None
@@ -1163,7 +1383,7 @@ def _stream_ingest(ctx, w, label, pre, cases, pack_ids, combos=COMBOS, stream="i
             model = _model_ingest(ctx, kind, path, pre, muts, tbls)
         for i, ((tag, m), rep) in enumerate(zip(cases, reps)):
             case = {"pack": label, "mutation": tag, "store": kind, "path": path, "input": hx(m),
-                    "pre": [[ty, hx(d)] for ty, d in pre]}
+                    "pre": [[ty, hx(d)] for ty, d in pre], "pre_mode": pre_mode, "expect": pack_ids}
             canon = _classify_ingest(ctx, stream, case, kind, path, rep, m, pack_ids)
             if canon is None:
                 continue
@@ -1202,8 +1422,9 @@ def attacks(rng):
     d12 = make_delta(blob, b2)
     A = []
 
-    def add(tag, built, pre=()):
-        A.append((tag, built.data if isinstance(built, Built) else built, list(pre)))
+    def add(tag, built, pre=(), mode="loose"):
+        ids = [obj_name(ty, d).hex() for ty, d in built.objects if ty in TYPE_NAMES] if isinstance(built, Built) else []
+        A.append((tag, built.data if isinstance(built, Built) else built, list(pre), ids, mode))
     two = [("full", 3, blob), ("ofs", 0, b2)]
     # object count too high / too low
     for tag, c in (("count+1", 3), ("count-1", 1), ("count=0-with-entries", 0), ("count=2^32-1", 2 ** 32 - 1), ("count+1000", 1002)):
@@ -1233,7 +1454,18 @@ def attacks(rng):
     add("ref:ofs-ref-cycle", build_pack("a", [("raw", raw_entry(7, d12, base=nA), None, None),
                                                ("raw", raw_entry(6, d12, base=enc_ofs(len(raw_entry(7, d12, base=nA)))), None, None)]))
     add("ref:thin-base-missing", build_pack("a", [("ref", ("ext", 0), extb + b"x")], ext=[(3, extb)]), pre=[])
-    add("ref:thin-base-present", build_pack("a", [("full", 3, blob), ("ref", ("ext", 0), extb + b"x")], ext=[(3, extb)]), pre=[(3, extb)])
+    # REF delta whose base is an object X the store already has and whose RESULT is X itself ("REF delta to self" with the
+    # base outside the pack), next to a new object Y: the completed pack must carry X as a full object too, or its entry
+    # for X needs X to be resolved.  X loose / X in an older pack.
+    ident_x = make_delta(extb, extb)
+    for mode in ("loose", "packed"):
+        add("ref:self-via-external-base", build_pack("a", [("raw", raw_entry(7, ident_x, base=obj_name(3, extb)), 3, extb), ("full", 3, b2)]),
+            pre=[(3, extb)], mode=mode)
+        add("ref:self-via-external-base-last", build_pack("a", [("full", 3, b2), ("raw", raw_entry(7, ident_x, base=obj_name(3, extb)), 3, extb)]),
+            pre=[(3, extb)], mode=mode)
+        add("ref:self-via-external-base-then-child", build_pack("a", [("raw", raw_entry(7, ident_x, base=obj_name(3, extb)), 3, extb),
+                                                                       ("ofs", 0, extb + b"child\n")]), pre=[(3, extb)], mode=mode)
+        add("ref:thin-base-present", build_pack("a", [("full", 3, blob), ("ref", ("ext", 0), extb + b"x")], ext=[(3, extb)]), pre=[(3, extb)], mode=mode)
     add("ref:thin-then-missing", build_pack("a", [("ref", ("ext", 0), extb + b"x"), ("raw", raw_entry(7, d12, base=b"\x11" * 20), None, None)],
                                             ext=[(3, extb)]), pre=[(3, extb)])
     # zlib: trailing garbage, over-long output, size header disagreeing with payload
@@ -2021,6 +2253,54 @@ def _stream_bombs(ctx):
 
 
 # ------------------------------------------------------------------------------------------------
+# input-size cap (receive.maxInputSize / add_thin_pack(max_input_size=N)) against peers that never stop sending
+
+CAP = 256 * 1024
+CAP_SLACK = 2 * 65536 + 4096      # one zlib read buffer + one protocol read buffer + headers
+CAP_HARD = CAP + 16 * 1024 * 1024
+
+
+def _stream_capped(ctx, w):
+    stream = "input-cap"
+    for attack in ("endless-empty-stored-blocks", "endless-stream-in-ref-delta", "endless-stream-after-valid-entry",
+                   "endless-tiny-entries", "valid-pack-larger-than-cap", "valid-pack-below-cap"):
+        for mode, kind in (("direct", "disk"), ("server", "disk")):
+            rep = w.ask({"mod": MOD, "op": "capped", "args": {"attack": attack, "mode": mode, "kind": kind, "cap": CAP, "hard": CAP_HARD,
+                                                               "scratch": str(ctx.scratch)}}, timeout=30)
+            case = {"attack": attack, "path": "add_thin_pack(read_all, read_some, max_input_size=N)" if mode == "direct" else
+                    "ReceivePackHandler with receive.maxInputSize=N", "cap": CAP}
+            if _process_failure(ctx, stream, case, rep, "a pack that never ends against the input cap", f"input-cap-{mode}"):
+                continue
+            r = rep["r"]
+            case["reply"] = {k: r.get(k) for k in ("res", "exc", "handed", "calls", "t", "reply", "newfiles", "ids", "refs")}
+            ctx.count(stream, (attack, mode), True, f"{mode}:{attack}:{r['res']}{':' + r.get('exc', '') if r.get('exc') else ''}")
+            budget = CAP + CAP_SLACK + r.get("cmd_bytes", 0)
+            if attack == "valid-pack-below-cap":
+                rejected = r["res"] != "ok" or (mode == "server" and "unpack ok" not in r.get("reply", ""))
+                if rejected:
+                    ctx.oracle_fail(stream, case, f"a valid {r['handed']}-byte pack below the cap of {CAP} bytes is rejected", "input-cap-false-positive")
+                continue
+            if r["res"].startswith("base "):
+                ctx.oracle_fail(stream, case, f"raised {r['res'][5:]}, not an ordinary Exception", "input-cap:baseexception")
+            if r["handed"] > budget:
+                ctx.oracle_fail(stream, case, f"the reader consumed {r['handed']} bytes from the peer although the input is capped at {CAP} bytes "
+                                f"(allowed: cap + read buffers = {budget}); outcome {r['res']} {r.get('exc')}", f"input-cap-exceeded:{mode}")
+            accepted = r["res"] == "ok" and (mode == "direct" or "unpack ok" in r.get("reply", ""))
+            if accepted:
+                ctx.oracle_fail(stream, case, "input beyond the cap was accepted", f"input-cap-accepted:{mode}")
+            if r.get("t", 0) > 10:
+                ctx.oracle_fail(stream, case, f"took {r['t']} s", "input-cap-slow")
+            if accepted:
+                continue
+            if r.get("ids") or (mode == "server" and r.get("refs")):
+                ctx.oracle_fail(stream, case, f"the rejected push left objects or refs behind: ids={r.get('ids')} refs={r.get('refs')}",
+                                "input-cap-left-trace")
+            if r.get("newfiles"):
+                ctx.oracle_fail(stream, case, f"the rejected push left files behind: {r['newfiles']}", "input-cap-left-files")
+            ctx.extra_cov.setdefault("input_cap", {})[f"{mode}:{attack}"] = {"res": r["res"], "exc": r.get("exc"), "handed": r["handed"], "t": r["t"]}
+
+
+# ------------------------------------------------------------------------------------------------
 # corpus (witnesses of the known findings and past failures) — replayed first
 
 def _eval_case(ctx, w, c: dict, stream: str):
@@ -2029,7 +2309,7 @@ def _eval_case(ctx, w, c: dict, stream: str):
     if kind == "ingest":
         pre = [(ty, unhx(d)) for ty, d in c.get("pre", [])]
         _stream_ingest(ctx, w, c.get("pack", "corpus"), pre, [(c.get("mutation", "corpus"), unhx(c["input"]))], c.get("expect", []),
-                       combos=[(c["store"], c["path"])], stream=stream)
+                       combos=[(c["store"], c["path"])], stream=stream, pre_mode=c.get("pre_mode", "loose"))
     elif kind == "parse":
         _stream_parse(ctx, w, c.get("pack", "corpus"), [(c.get("mutation", "corpus"), unhx(c["input"]))], stream=stream)
     elif kind == "random-access":
@@ -2150,16 +2430,20 @@ def run(ctx: core.Ctx):
             ctx.sample({"stream": "parse/ingest", "pack": p.name, "bytes": hx(p.data), "objects": [[ty, hx(d)[:40]] for ty, d in p.objects]})
         # 3. grammar-aware attacks through everything
         bypre: dict = {}
-        for tag, data, pre in attacks(rng):
-            bypre.setdefault(tuple(pre), []).append((tag, data))
+        for tag, data, pre, ids, mode in attacks(rng):
+            g = bypre.setdefault((tuple(pre), mode), ([], set()))
+            g[0].append((tag, data))
+            g[1].update(ids)
         t_att = time.time()
-        for pre, cases in bypre.items():
+        for (pre, mode), (cases, ids) in bypre.items():
+            ids = sorted(ids)
             _stream_parse(ctx, w, "attack", cases, stream="attack.parse")
-            _stream_ingest(ctx, w, "attack", list(pre), cases, [], stream="attack.ingest")
-            _stream_ingest(ctx, wd, "attack [rust]", list(pre), cases, [], combos=[("disk", "thin"), ("mem", "thin"), ("disk", "addpack")],
-                           stream="attack.ingest.rust")
-            _stream_ingest(ctx, w, "attack", list(pre), cases, [], combos=[("disk", "thin-recv"), ("disk", "addpack-abort")], stream="attack.ingest.aux")
-        ctx.sample({"stream": "attack", "tags": [t for t, _, _ in attacks(rng)][:80]})
+            _stream_ingest(ctx, w, "attack", list(pre), cases, ids, stream="attack.ingest", pre_mode=mode)
+            _stream_ingest(ctx, wd, "attack [rust]", list(pre), cases, ids, combos=[("disk", "thin"), ("mem", "thin"), ("disk", "addpack")],
+                           stream="attack.ingest.rust", pre_mode=mode)
+            _stream_ingest(ctx, w, "attack", list(pre), cases, ids, combos=[("disk", "thin-recv"), ("disk", "addpack-abort")],
+                           stream="attack.ingest.aux", pre_mode=mode)
+        ctx.sample({"stream": "attack", "tags": [a[0] for a in attacks(rng)][:80]})
         walls["attacks"] = round(time.time() - t_att, 1)
         # 4. random access with attacker-controlled indexes
         with timed("random-access"):
@@ -2173,6 +2457,9 @@ def run(ctx: core.Ctx):
         # 7. decompression bombs
         with timed("bombs"):
             _stream_bombs(ctx)
+        # 8. peers that never stop sending vs the input cap (separate read_all / read_some; real receive-pack handler)
+        with timed("input-cap"):
+            _stream_capped(ctx, w)
     finally:
         w.close()
         wd.close()
@@ -2192,13 +2479,14 @@ def search(ctx: core.Ctx):
             if ctx.oracle_failures:
                 return
             _stream_bombs(ctx)
+            _stream_capped(ctx, w)
             if ctx.oracle_failures:
                 return
             for d in ctx.disagreements[:40]:
                 c = d["case"]
                 if "input" in c and "store" in c:
-                    _stream_ingest(ctx, w, "search", [(ty, unhx(x)) for ty, x in c.get("pre", [])], [("disagreeing", unhx(c["input"]))], [],
-                                   stream="search.ingest")
+                    _stream_ingest(ctx, w, "search", [(ty, unhx(x)) for ty, x in c.get("pre", [])], [("disagreeing", unhx(c["input"]))], c.get("expect", []),
+                                   stream="search.ingest", pre_mode=c.get("pre_mode", "loose"))
                 elif "input" in c:
                     _stream_parse(ctx, w, "search", [("disagreeing", unhx(c["input"]))], stream="search.parse")
                     _stream_ingest(ctx, w, "search", [], [("disagreeing", unhx(c["input"]))], [], stream="search.ingest")
@@ -2233,6 +2521,8 @@ def replay(ctx: core.Ctx, data: dict) -> int:
             _eval_case(ctx, w, dict(c, kind="index-file"), "replay")
         elif "bomb" in c:
             _stream_bombs(ctx)
+        elif "attack" in c and "cap" in c:
+            _stream_capped(ctx, w)
         else:
             packs = valid_packs(ctx.rng)
             _stream_files(ctx, w, packs)
